@@ -56,6 +56,23 @@ struct MtPolicyT {
 		n_map++;
 		return base;
 	}
+#ifdef C05_TRACE_HOOKS
+	// the optional allocation-trace hooks: the pool's tracing code runs in every thread; a record must consist of the calling
+	// thread's own frames (and TSan watches whatever memory the records are assembled in)
+	bool enable_trace() { return true; }
+	static uintptr_t my_trace_id() { static std::atomic<uintptr_t> next{1}; static thread_local uintptr_t id = next++; return id; }
+	template<typename F> void walk_stack(F f) { uintptr_t me = my_trace_id(); for(uintptr_t i = 0; i < 5; i++) f((me << 12) + i); }
+	void output_trace(void *buffer, size_t n) {
+		auto *b = (const uint8_t *)buffer; uintptr_t me = my_trace_id();
+		auto word = [&](size_t off) { uint64_t w = 0; for(int i = 0; i < 8; i++) w |= (uint64_t)b[off + i] << (8 * i); return w; };
+		size_t hdr = n >= 1 && b[0] == 'a' ? 17 : 9;
+		bool ok = n >= hdr + 8 && (b[0] == 'a' || b[0] == 'f') && word(n - 8) == 0xA5A5A5A5A5A5A5A5ull;
+		for(size_t off = hdr; ok && off + 8 <= n - 8; off += 8) if((word(off) >> 12) != me) ok = false;
+		if(!ok) bad_trace++;
+		n_trace++;
+	}
+	std::atomic<uint64_t> bad_trace{0}, n_trace{0};
+#endif
 	void unmap(uintptr_t base, size_t) {
 		if(t_pool_locks_held) g_policy_under_lock++;
 		std::pair<void *, size_t> m{nullptr, 0};
@@ -176,6 +193,10 @@ static void torture(const char *mname, long long idx, int nthreads, unsigned nop
 	if(nulls.load()) violation(key + ":null", "allocate returned null although map() never fails");
 	if(g_policy_under_lock.load()) violation(key + ":policy-called-with-pool-lock", strf("Policy::map/unmap was entered %llu times while the calling thread held a pool mutex", (unsigned long long)g_policy_under_lock.load()));
 	if(pol.bad_unmap.load()) violation(key + ":unmap-unknown", "unmap of an unknown region");
+#ifdef C05_TRACE_HOOKS
+	if(pol.bad_trace.load()) violation(key + ":trace-record-mixed", strf("%llu of %llu records handed to output_trace() were not made of the calling thread's own frames and framing", (unsigned long long)pol.bad_trace.load(), (unsigned long long)pol.n_trace.load()));
+	count("policy_trace_records", pol.n_trace.load());
+#endif
 	// quiescent accounting: every block is freed, so only slabs remain mapped (large reservations are returned when freed) and the
 	// used-page counter must be what those slabs added - in any sequential order of the calls that were made. The class of a slab is
 	// the reported size of any block that was handed out from it; a slab nobody ever got a block from leaves the check inconclusive.
